@@ -417,8 +417,9 @@ def run_real(ctx):
     J = Judge(ctx)
     # 1. mj_parseXMLString on every document; mj_parseXMLString + mj_compile on every third
     res_p = run_batch(exe, ["parse " + drv.hx(t) for t in texts], timeout=300)
-    sub = list(range(0, len(texts), 3))
-    res_c = run_batch(exe, ["loadstr " + drv.hx(texts[i]) for i in sub], timeout=300)
+    sub = list(range(0, len(texts), 3 if not ctx.quick else 6))
+    # (sanitizer build: the never-triggers-undefined-behaviour clause covers compilation of what was read, too)
+    res_c = run_batch(exe_asan, ["loadstr " + drv.hx(texts[i]) for i in sub], timeout=600)
     comp = dict(zip(sub, res_c))
     first = True
     for i, (s, t, r) in enumerate(zip(docs, texts, res_p)):
@@ -470,25 +471,26 @@ def run_real(ctx):
     enc = lambda m: drv.hx(m.encode("utf-8", errors="replace"))     # noqa: E731
     ra = run_batch(exe_asan, ["parse " + enc(m) for _h, m in muts], timeout=240, chunk=150)
     rp = run_batch(exe, ["loadstr " + enc(m) for _h, m in muts], timeout=240, chunk=150)
+    rq = run_batch(exe_asan, ["loadstr " + enc(m) for _h, m in muts], timeout=600, chunk=150)
     hows = set()
-    for (how, m), a, p in zip(muts, ra, rp):
+    for (how, m), a, p, q in zip(muts, ra, rp, rq):
         hows.add(how.split("+")[0])
         ctx.case({"mut": how, "xml": m[:2000]}, sample={"mutator": how, "xml": m[:200]})
         bad = None
-        for variant, r in (("asan", a), ("plain", p)):
+        for variant, r, op in (("asan", a, "parse"), ("plain", p, "loadstr"), ("asan", q, "loadstr")):
             if r[0] == "death":
-                bad = ("crash:%s:%s" % (how.split("+")[0], where_of(r[1])), "reader died (%s build) on a mutated input: %s" % (variant, r[1]), variant)
+                bad = ("crash:%s:%s" % (how.split("+")[0], where_of(r[1])), "reader died (%s build, %s) on a mutated input: %s" % (variant, op, r[1]), variant, op)
             elif r[0] == "abort":
-                bad = ("abort:mju_error:%s" % how.split("+")[0], "mju_error instead of an error return (%s build): %s" % (variant, r[1][:200]), variant)
+                bad = ("abort:mju_error:%s" % how.split("+")[0], "mju_error instead of an error return (%s build): %s" % (variant, r[1][:200]), variant, op)
             elif r[0] == "emptyerr":
-                bad = ("rejected:empty-error:%s" % how.split("+")[0], "input rejected with an EMPTY error message (%s build)" % variant, variant)
+                bad = ("rejected:empty-error:%s" % how.split("+")[0], "input rejected with an EMPTY error message (%s build)" % variant, variant, op)
             if bad:
                 break
         if bad is None:
             ctx.trace_ok()
         else:
             ctx.violation(bad[0], bad[1] + " | input (first 300 chars): " + repr(m[:300]),
-                          {"mode": "real", "op": "parse" if bad[2] == "asan" else "loadstr", "variant": bad[2], "xml": m if len(m) < 200000 else None,
+                          {"mode": "real", "op": bad[3], "variant": bad[2], "xml": m if len(m) < 200000 else None,
                            "nocrash": True, "signature": bad[0]})
     if not set(MUTATORS) <= hows:
         raise Machinery("vacuity: mutators never used: %s" % sorted(set(MUTATORS) - hows))
